@@ -24,6 +24,11 @@
       [decl_names_ok] / [idents_ok] / no malformed tags are exactly what [excl_decl_clash] = false
       grants, they are not derived).  It is not a theorem about the Go type checker; the real
       go/types run is observed by the correspondence check on every case.
+      OPEN (stated, evaluated on every case of every run, NOT proved): a condition on the names of
+      schema and document alone suffices for the second exclusion,
+        forall S d, decl_safe S d = true -> excl_decl_clash S d = false
+      ([decl_safe] in ClientGenSpec.v); missing: an invariant on the generator's struct counter
+      (sel<T1><n1> = sel<T2><n2> only if a composite type name ends in a digit).
     - "decoding succeeds with every selected leaf": for every response tree [w] that conforms to
       the operation (any concrete object types, nulls at nullable positions, any list lengths),
       [decode_op] of the JSON of [w] returns a value, for all sufficiently large fuel, whose leaves
